@@ -171,11 +171,11 @@ func InitializeProcesses(processes []*Process, globalEnv *GlobalEnvironment, sub
 }
 
 func (re *RuntimeEnvironment) ProcessCount() uint64 {
-	return re.processCount
+	return atomic.LoadUint64(&re.processCount)
 }
 
 func (re *RuntimeEnvironment) DeadProcessCount() uint64 {
-	return re.deadProcessCount
+	return atomic.LoadUint64(&re.deadProcessCount)
 }
 
 // Create the initial channels required. E.g. for a process prc[c1], a channel with Ident: c1 is created
@@ -201,7 +201,7 @@ func (re *RuntimeEnvironment) CreateChannelForEachProcess(processes []*Process) 
 // Create new channel
 func (re *RuntimeEnvironment) CreateFreshChannel(ident string) Name {
 	// The channel ID is used for debugging
-	atomic.AddUint64(&re.debugChannelCounter, 1)
+	channelID := atomic.AddUint64(&re.debugChannelCounter, 1)
 
 	// Create new channel and assign a name to it
 	var mChan chan Message
@@ -226,7 +226,7 @@ func (re *RuntimeEnvironment) CreateFreshChannel(ident string) Name {
 	return Name{
 		Ident:          ident,
 		Channel:        mChan,
-		ChannelID:      re.debugChannelCounter,
+		ChannelID:      channelID,
 		ControlChannel: cmChan,
 		IsSelf:         false,
 	}
